@@ -1014,11 +1014,14 @@ def main():
         rs += nrs
         pred += [2 if "NsBad" in r["name"] else 3 for r in nroutes]
 
-    def fails(c, what):
+    def fails(c, what, want=None):
+        """Re-evaluates the SAME clause on the candidate: the correspondence, or the oracle with the same verdict."""
         c = copy.deepcopy(c)
         c["name"] = "Shr"
         _, o, r_, _ = evaluate([c], "shrink", os.path.join(WORK, PROP, "shr"))
-        return (not r_[0]["agrees"]) if what == "agree" else (r_[0]["oracle"] in (1, 2))
+        if what == "agree":
+            return not r_[0]["agrees"]
+        return r_[0]["oracle"] == want if want is not None else r_[0]["oracle"] in (1, 2)
 
     disagree = [i for i, x in enumerate(rs) if not x["agrees"]]
     propfail = [i for i, x in enumerate(rs) if x["oracle"] in (1, 2)]
@@ -1051,7 +1054,7 @@ def main():
                                       "the bad one first (pygen/c10.py namesake_cases)",
                            "claim": "prop_C10: the implementation accepts the route exactly when it is well linked"})
             continue
-        small = shrink_route(routes[i], lambda c: fails(c, "oracle"))
+        small = shrink_route(routes[i], lambda c, w=rs[i]["oracle"]: fails(c, "oracle", w))
         res.violation({"kind": "property-fails-on-implementation", "input": strip_route(small),
                        "original": strip_route(routes[i]), "implementation_output": obs[i], "oracle": rs[i],
                        "claim": "prop_C10: the implementation accepts the route exactly when it is well linked"})
@@ -1075,7 +1078,7 @@ def main():
             wfail = [i for i, x in enumerate(wrs) if x["oracle"] in (1, 2)]
             if wfail:
                 i = wfail[0]
-                small = shrink_route(wide[i], lambda c: fails(c, "oracle"))
+                small = shrink_route(wide[i], lambda c, w=wrs[i]["oracle"]: fails(c, "oracle", w))
                 res.violation({"kind": "property-fails-on-implementation", "input": strip_route(small),
                                "original": strip_route(wide[i]), "implementation_output": wobs[i], "oracle": wrs[i],
                                "claim": "prop_C10: the implementation accepts the route exactly when it is well linked",
